@@ -1666,4 +1666,359 @@ Proof. intros s HI Hp. apply (run_good n InvC prim_pre step_preserves_InvC tr s 
 Theorem trace_from_fresh_InvC tr : pre_trace n prim_pre tr (init_state n) -> InvC (run n tr (init_state n)).
 Proof. apply run_preserves_InvC, init_state_InvC. Qed.
 
+(* ======================================================================== *)
+(* Part J : updates that do not touch the cost fields (recipes, index orders, contractor cache) *)
+Definition cost_same (i i' : ninfo) : Prop :=
+  i_legs i' = i_legs i /\ i_involved i' = i_involved i /\ i_size i' = i_size i /\ i_flops i' = i_flops i.
+Lemma node_inv_cost_same ch sl nd i i' : cost_same i i' -> node_inv ch sl nd i -> node_inv ch sl nd i'.
+Proof. intros (E1&E2&E3&E4) H. unfold node_inv in *. rewrite E1, E2, E3, E4. exact H. Qed.
+Lemma cost_same_mono i i' : cost_same i i' -> mono i i'.
+Proof. intros (_&_&E3&E4). unfold mono. rewrite E3, E4. auto. Qed.
+Lemma InvC_upd_neutral nd f s : (forall i, cost_same i (f i)) -> InvC s ->
+  InvC (upd_info nd f s) /\ Ext s (upd_info nd f s).
+Proof.
+  intros Hf [HS HT]. destruct (InvC_upd nd f s HS) as [A B].
+  - intros i Hi. split; [|apply cost_same_mono, Hf]. apply (node_inv_cost_same _ _ _ i); [apply Hf|].
+    destruct HS as (_&_&H3&_). apply (H3 nd i Hi).
+  - split; [split; [exact A|apply (totals_Ext s); assumption]|exact B].
+Qed.
+Lemma fold_upd_neutral f (L : list (node * (node * node))) : (forall i, cost_same i (f i)) -> forall s, InvC s ->
+  InvC (fold_left (fun s p => upd_info (fst p) f s) L s) /\ Ext s (fold_left (fun s p => upd_info (fst p) f s) L s).
+Proof.
+  intros Hf. induction L as [|p L IH]; intros s HI; cbn [fold_left]; [split; [exact HI|apply Ext_refl]|].
+  destruct (InvC_upd_neutral (fst p) f s Hf HI) as [A B]. destruct (IH _ A) as [A' B'].
+  split; [exact A'|eapply Ext_trans; eassumption].
+Qed.
+Lemma cost_same_drop_recipes i : cost_same i (drop_recipes i).
+Proof. unfold cost_same. cbn. auto. Qed.
+Lemma cost_same_drop_inds_recipes i : cost_same i (drop_inds_recipes i).
+Proof. unfold cost_same. cbn. auto. Qed.
+Lemma same_set_cores x s : same_cost_fields s (set_cores x s).
+Proof. unfold same_cost_fields. repeat split; reflexivity. Qed.
+Theorem reset_recipes_inv s : InvC s -> InvC (reset_recipes s).
+Proof.
+  intros HI. unfold reset_recipes, over_children. apply (InvC_same _ _ (same_set_cores _ _)).
+  apply fold_upd_neutral; [apply cost_same_drop_recipes|exact HI].
+Qed.
+Theorem reset_inds_inv s : InvC s -> InvC (reset_inds s).
+Proof.
+  intros HI. unfold reset_inds, over_children. apply (InvC_same _ _ (same_set_cores _ _)).
+  apply fold_upd_neutral; [apply cost_same_drop_inds_recipes|exact HI].
+Qed.
+
+(* ======================================================================== *)
+(* Part K : what removing one more index does to the specification           *)
+Lemma insert_by_perm {A} (le : A -> A -> bool) x l : Permutation (insert_by le x l) (x :: l).
+Proof.
+  induction l as [|y l IH]; cbn; [reflexivity|]. destruct (le y x); [|reflexivity].
+  rewrite IH. apply perm_swap.
+Qed.
+Lemma sort_by_perm {A} (le : A -> A -> bool) l : Permutation (sort_by le l) l.
+Proof.
+  unfold sort_by. assert (H : forall acc, Permutation (fold_left (fun acc x => insert_by le x acc) l acc) (l ++ acc)).
+  { induction l as [|x l IH]; intros acc; cbn [fold_left app]; [reflexivity|].
+    rewrite IH, insert_by_perm. apply Permutation_sym, Permutation_middle. }
+  rewrite H, app_nil_r. reflexivity.
+Qed.
+Lemma memb_iff a b j : (In j a <-> In j b) -> memb j a = memb j b.
+Proof.
+  intros H. destruct (memb j a) eqn:Ea, (memb j b) eqn:Eb; try reflexivity.
+  - apply memb_In, H, memb_In in Ea. congruence.
+  - apply memb_In, H, memb_In in Eb. congruence.
+Qed.
+Lemma cnt_ext sl1 sl2 : (forall j, memb j (removed sl1) = memb j (removed sl2)) ->
+  forall S j, cnt n sl1 S j = cnt n sl2 S j.
+Proof.
+  intros H S j. induction S as [|k S IH]; cbn [cnt]; [reflexivity|]. rewrite IH. f_equal.
+  unfold term_sl. f_equal. apply filter_ext. intros a. rewrite H. reflexivity.
+Qed.
+
+Section OneMore.
+Variable sl sl' : list slinfo.
+Variable ind : ix.
+Hypothesis fresh : ~ In ind (removed sl).
+Hypothesis Hrem : forall j, In j (removed sl') <-> j = ind \/ In j (removed sl).
+
+Lemma memb_removed' j : memb j (removed sl') = memb j (removed sl) || Nat.eqb j ind.
+Proof.
+  destruct (Nat.eqb_spec j ind) as [->|Hn].
+  - rewrite orb_true_r. apply memb_In, Hrem. left. reflexivity.
+  - rewrite orb_false_r. apply memb_iff. rewrite Hrem. tauto.
+Qed.
+Lemma cnt_more S j : cnt n sl' S j = if Nat.eqb j ind then 0 else cnt n sl S j.
+Proof.
+  rewrite <- (cnt_slice n sl ind None S j). apply cnt_ext. intros k.
+  rewrite memb_removed'. unfold removed. rewrite map_app. cbn. unfold memb. rewrite existsb_app. cbn.
+  rewrite orb_false_r. reflexivity.
+Qed.
+Lemma spec_more S j : spec_count n sl' S j = if Nat.eqb j ind then 0 else spec_count n sl S j.
+Proof. unfold spec_count. rewrite cnt_more. destruct (Nat.eqb j ind); [destruct (0 <? appear n j); reflexivity|reflexivity]. Qed.
+
+Lemma lget_map0 j L : lget j (map (fun k => (k, 0)) L) = if memb j L then Some 0 else None.
+Proof.
+  induction L as [|a L IH]; cbn; [reflexivity|]. rewrite Nat.eqb_sym. destruct (Nat.eqb j a); cbn; [reflexivity|exact IH].
+Qed.
+Lemma memb_filter j f L : memb j (filter f L) = memb j L && f j.
+Proof.
+  destruct (memb j (filter f L)) eqn:E.
+  - apply memb_In, filter_In in E. destruct E as [E1 E2]. apply memb_In in E1. rewrite E1, E2. reflexivity.
+  - apply memb_false in E. destruct (memb j L) eqn:E1; [|reflexivity]. destruct (f j) eqn:E2; [|reflexivity].
+    exfalso. apply E, filter_In. split; [apply memb_In, E1|exact E2].
+Qed.
+Lemma root_legs_more j : lget j (root_legs n sl') = if Nat.eqb j ind then None else lget j (root_legs n sl).
+Proof.
+  unfold root_legs. rewrite !lget_map0, !memb_filter, memb_removed'.
+  destruct (Nat.eqb j ind); [rewrite orb_true_r, andb_false_r; reflexivity|rewrite orb_false_r; reflexivity].
+Qed.
+
+(* dict.pop(ind) *)
+Lemma ldel_notin j d : ~ In j (lkeys d) -> ldel j d = d.
+Proof.
+  unfold lkeys. induction d as [|[k w] d IH]; cbn; [reflexivity|]. intros H.
+  destruct (Nat.eqb_spec k j); [subst; tauto|]. f_equal. apply IH. tauto.
+Qed.
+Lemma lkeys_ldel j d : NoDup (lkeys d) -> lkeys (ldel j d) = filter (fun k => negb (Nat.eqb k j)) (lkeys d).
+Proof.
+  unfold lkeys. induction d as [|[k w] d IH]; cbn; [reflexivity|]. intros ND. inversion ND as [|? ? Hn ND']; subst.
+  destruct (Nat.eqb_spec k j) as [->|Hkj]; cbn.
+  - symmetry. clear -Hn. induction (map fst d) as [|a l IHl]; cbn; [reflexivity|].
+    destruct (Nat.eqb_spec a j) as [->|]; cbn; [exfalso; apply Hn; left; reflexivity|]. f_equal. apply IHl. intros H. apply Hn. right. exact H.
+  - f_equal. apply IH, ND'.
+Qed.
+Lemma lget_ldel j i d : NoDup (lkeys d) -> lget i (ldel j d) = if Nat.eqb i j then None else lget i d.
+Proof.
+  unfold lkeys. induction d as [|[k w] d IH]; cbn; [destruct (Nat.eqb i j); reflexivity|]. intros ND.
+  inversion ND as [|? ? Hn ND']; subst. destruct (Nat.eqb_spec k j) as [->|Hkj]; cbn.
+  - destruct (Nat.eqb_spec i j) as [->|Hij].
+    + apply lget_none_notin. exact Hn.
+    + destruct (Nat.eqb_spec j i); [congruence|reflexivity].
+  - destruct (Nat.eqb_spec k i) as [->|Hki].
+    + destruct (Nat.eqb_spec i j); [congruence|reflexivity].
+    + apply IH, ND'.
+Qed.
+Lemma wfl_ldel j d : wfl d -> wfl (ldel j d).
+Proof.
+  intros [ND Hp]. split.
+  - rewrite lkeys_ldel by exact ND. apply NoDup_filter, ND.
+  - intros kv Hkv. apply Hp. clear -Hkv. induction d as [|[k w] d IH]; cbn in *; [contradiction|].
+    destruct (Nat.eqb k j); [right; exact Hkv|]. destruct Hkv as [H|H]; [left; exact H|right; apply IH, H].
+Qed.
+Lemma lget0_ldel j i d : NoDup (lkeys d) -> lget0 i (ldel j d) = if Nat.eqb i j then 0 else lget0 i d.
+Proof. intros ND. unfold lget0. rewrite lget_ldel by exact ND. destruct (Nat.eqb i j); reflexivity. Qed.
+Lemma size_of_ldel sz j d : NoDup (lkeys d) ->
+  size_of sz (lkeys d) = (size_of sz (lkeys (ldel j d)) * (if lmem j d then zget j sz else 1))%Z.
+Proof.
+  intros ND. rewrite lkeys_ldel by exact ND. rewrite (size_of_filter_out j sz (lkeys d) ND).
+  f_equal. destruct (lmem j d) eqn:E.
+  - apply lmem_in_keys, memb_In in E. rewrite E. reflexivity.
+  - apply lmem_false_notin, memb_false in E. rewrite E. reflexivity.
+Qed.
+
+(* the transformations remove_ind applies to the caches are exactly right *)
+Lemma slegs_more nd lg : slegs_ok n sl nd lg -> slegs_ok n sl' nd (ldel ind lg).
+Proof.
+  intros [W G]. split; [apply wfl_ldel, W|]. intros j. rewrite lget0_ldel by apply W. rewrite spec_more, G. reflexivity.
+Qed.
+Lemma inv_more l r inv : inv_ok n sl l r inv -> inv_ok n sl' l r (ldel ind inv).
+Proof.
+  intros [W G]. split; [apply wfl_ldel, W|]. intros j. rewrite lget0_ldel by apply W. rewrite !spec_more, G.
+  destruct (Nat.eqb j ind); reflexivity.
+Qed.
+Lemma legs_more nd lg : legs_ok n sl nd lg -> legs_ok n sl' nd (ldel ind lg).
+Proof.
+  unfold legs_ok. destruct (Nat.eqb (length nd) N); [|apply slegs_more].
+  intros [ND G]. split; [rewrite lkeys_ldel by exact ND; apply NoDup_filter, ND|].
+  intros j. rewrite lget_ldel by exact ND. rewrite root_legs_more, G. reflexivity.
+Qed.
+End OneMore.
+
+(* ======================================================================== *)
+(* Part L : remove_ind                                                       *)
+Lemma fuel_S s : exists f, fuel n s = S f.
+Proof. unfold fuel. exists (2 * N + 2 * length (info s) + 2 * length (children s) + 5). lia. Qed.
+Lemma g_involved_hit s nd v : rd i_involved s nd = Some v -> g_involved n s nd = (s, v).
+Proof. intros H. unfold g_involved. destruct (fuel_S s) as [f ->]. rewrite get_involved_S, H. reflexivity. Qed.
+Lemma g_legs_hit s nd v : rd i_legs s nd = Some v -> g_legs n s nd = (s, v).
+Proof. intros H. unfold g_legs. destruct (fuel_S s) as [f ->]. rewrite get_legs_S, H. reflexivity. Qed.
+
+Lemma nget_upd_same nd f s : nget nd (info (upd_info nd f s)) = option_map f (nget nd (info s)).
+Proof. unfold upd_info. destruct (nget nd (info s)) eqn:E; cbn; [apply nget_nset_same|exact E]. Qed.
+Lemma nget_upd_other nd q f s : q <> nd -> nget q (info (upd_info nd f s)) = nget q (info s).
+Proof. intros H. unfold upd_info. destruct (nget nd (info s)); cbn; [apply nget_nset_other, H|reflexivity]. Qed.
+Lemma nkeys_upd nd f s : nkeys (info (upd_info nd f s)) = nkeys (info s).
+Proof. unfold upd_info. destruct (nget nd (info s)) eqn:E; cbn; [apply nkeys_nset_in; congruence|reflexivity]. Qed.
+
+(* sums over a duplicate-free key list when the summand changes at one key *)
+Lemma zsum_map_change (g g' : node -> Z) nd K : NoDup K -> In nd K -> (forall q, q <> nd -> g' q = g q) ->
+  zsum (map g' K) = (zsum (map g K) + (g' nd - g nd))%Z.
+Proof.
+  induction K as [|a K IH]; intros ND Hin Hg; [contradiction|]. inversion ND as [|? ? Ha ND']; subst.
+  cbn [map]. rewrite !zsum_cons. destruct (node_eq_dec a nd) as [->|Hn].
+  - assert (E : map g' K = map g K) by (apply map_ext_in; intros q Hq; apply Hg; intros ->; contradiction).
+    rewrite E. lia.
+  - rewrite Hg by exact Hn. rewrite IH; [lia|exact ND'| |exact Hg]. destruct Hin as [H|H]; [congruence|exact H].
+Qed.
+Lemma count_map_change (g g' : node -> Z) nd z K : NoDup K -> In nd K -> (forall q, q <> nd -> g' q = g q) ->
+  count_occ Z.eq_dec (map g' K) z
+  = count_occ Z.eq_dec (map g K) z - (if Z.eqb z (g nd) then 1 else 0) + (if Z.eqb z (g' nd) then 1 else 0).
+Proof.
+  induction K as [|a K IH]; intros ND Hin Hg; [contradiction|]. inversion ND as [|? ? Ha ND']; subst.
+  cbn [map count_occ]. destruct (node_eq_dec a nd) as [->|Hn].
+  - assert (E : map g' K = map g K) by (apply map_ext_in; intros q Hq; apply Hg; intros ->; contradiction).
+    rewrite E. destruct (Z.eq_dec (g' nd) z), (Z.eq_dec (g nd) z), (Z.eqb_spec z (g nd)), (Z.eqb_spec z (g' nd)); try congruence; lia.
+  - rewrite Hg by exact Hn. assert (Hk : In nd K) by (destruct Hin as [H|H]; [congruence|exact H]).
+    rewrite (IH ND' Hk Hg).
+    assert (Hpos : (if Z.eqb z (g nd) then 1 else 0) <= count_occ Z.eq_dec (map g K) z).
+    { destruct (Z.eqb_spec z (g nd)) as [->|]; [|lia]. apply count_occ_In, in_map, Hk. }
+    destruct (Z.eq_dec (g a) z); lia.
+Qed.
+
+(* bookkeeping for a run of updates on ONE node *)
+Definition stage (s : tstate) (nd : node) (sk : tstate) (ik : ninfo) : Prop :=
+  nget nd (info sk) = Some ik /\ (forall q, q <> nd -> nget q (info sk) = nget q (info s)) /\
+  nkeys (info sk) = nkeys (info s) /\ children sk = children s /\ sliced sk = sliced s /\ mult sk = mult s /\
+  trk_flops sk = trk_flops s /\ trk_write sk = trk_write s /\ trk_size sk = trk_size s.
+Lemma stage_refl s nd i : nget nd (info s) = Some i -> stage s nd s i.
+Proof. intros H. unfold stage. repeat split; auto. Qed.
+Lemma stage_upd s nd sk ik f : stage s nd sk ik -> stage s nd (upd_info nd f sk) (f ik).
+Proof.
+  intros (A1&A2&A3&A4&A5&A6&A7&A8&A9). destruct (upd_info_fields nd f sk) as (F1&F2&F3&F4&F5&F6&_).
+  unfold stage. split; [rewrite nget_upd_same, A1; reflexivity|]. split; [intros q Hq; rewrite nget_upd_other by exact Hq; apply A2, Hq|].
+  split; [rewrite nkeys_upd; exact A3|]. repeat split; congruence.
+Qed.
+Lemma stage_fields s nd sk ik sk' : stage s nd sk ik -> info sk' = info sk -> children sk' = children sk ->
+  sliced sk' = sliced sk -> mult sk' = mult sk -> trk_flops sk' = trk_flops sk -> trk_write sk' = trk_write sk ->
+  trk_size sk' = trk_size sk -> stage s nd sk' ik.
+Proof. intros (A1&A2&A3&A4&A5&A6&A7&A8&A9) E1 E2 E3 E4 E5 E6 E7. unfold stage. rewrite E1, E2, E3, E4, E5, E6, E7. repeat split; assumption. Qed.
+Lemma rd_stage {A} (fld : ninfo -> option A) s nd sk ik : stage s nd sk ik -> rd fld sk nd = fld ik.
+Proof. intros (A1&_). unfold rd. rewrite A1. reflexivity. Qed.
+
+Lemma rin_internal ind d s nd i inv zf lg zs :
+  length nd <> 1 -> nget nd (info s) = Some i ->
+  i_involved i = Some inv -> i_flops i = Some zf -> i_legs i = Some lg -> i_size i = Some zs ->
+  let hv := lmem ind inv in let hl := lmem ind lg in
+  let i1 := w_flops (Some (zf / d)%Z) (w_involved (Some (ldel ind inv)) i) in
+  let i' := if hv then drop_inds_recipes (if hl then w_size (Some (zs / d)%Z) (w_legs (Some (ldel ind lg)) i1) else i1) else i in
+  let s' := remove_ind_node n ind d s nd in
+  stage s nd s' i' /\
+  flops_ s' = (if hv then flops_ s + (zf / d - zf) else flops_ s)%Z /\
+  write_ s' = (if hv && hl then write_ s + (zs / d - zs) else write_ s)%Z /\
+  sizes_mc s' = (if hv && hl then mc_add (zs / d)%Z (mc_discard zs (sizes_mc s)) else sizes_mc s).
+Proof.
+  intros E1 Hi Hinv Hzf Hlg Hzs. cbn zeta. unfold remove_ind_node.
+  destruct (Nat.eqb_spec (length nd) 1) as [|_]; [contradiction|].
+  rewrite (g_involved_hit s nd inv) by (unfold rd; rewrite Hi; exact Hinv).
+  destruct (lmem ind inv) eqn:Ev; cbn [negb andb].
+  2:{ split; [apply stage_refl, Hi|]. repeat split; reflexivity. }
+  set (s2 := upd_info nd (w_involved (Some (ldel ind inv))) s).
+  assert (S2 : stage s nd s2 (w_involved (Some (ldel ind inv)) i)) by (apply stage_upd, stage_refl, Hi).
+  rewrite (g_flops_hit s2 nd zf) by (rewrite (rd_stage i_flops _ _ _ _ S2); exact Hzf).
+  set (s4 := set_flops _ (upd_info nd (w_flops (Some (zf / d)%Z)) s2)).
+  set (i1 := w_flops (Some (zf / d)%Z) (w_involved (Some (ldel ind inv)) i)).
+  assert (S4 : stage s nd s4 i1).
+  { apply (stage_fields s nd (upd_info nd (w_flops (Some (zf / d)%Z)) s2)); try reflexivity. apply stage_upd, S2. }
+  destruct (upd_info_fields nd (w_involved (Some (ldel ind inv))) s) as (_&_&_&_&_&_&P7&P8&P9&P10).
+  destruct (upd_info_fields nd (w_flops (Some (zf / d)%Z)) s2) as (_&_&_&_&_&_&Q7&Q8&Q9&Q10).
+  assert (F4 : flops_ s4 = (flops_ s + (zf / d - zf))%Z).
+  { change (flops_ s4) with (flops_ s2 + (zf / d - zf))%Z. unfold s2. rewrite P7. reflexivity. }
+  assert (W4 : write_ s4 = write_ s).
+  { change (write_ s4) with (write_ (upd_info nd (w_flops (Some (zf / d)%Z)) s2)). rewrite Q8. unfold s2. rewrite P8. reflexivity. }
+  assert (Z4 : sizes_mc s4 = sizes_mc s).
+  { unfold sizes_mc. change (sizes_ s4) with (sizes_ (upd_info nd (w_flops (Some (zf / d)%Z)) s2)).
+    change (sizes_max s4) with (sizes_max (upd_info nd (w_flops (Some (zf / d)%Z)) s2)).
+    rewrite Q9, Q10. unfold s2. rewrite P9, P10. reflexivity. }
+  rewrite (g_legs_hit s4 nd lg) by (rewrite (rd_stage i_legs _ _ _ _ S4); exact Hlg).
+  destruct (lmem ind lg) eqn:El.
+  - set (sa := upd_info nd (w_legs (Some (ldel ind lg))) s4).
+    assert (Sa : stage s nd sa (w_legs (Some (ldel ind lg)) i1)) by (apply stage_upd, S4).
+    rewrite (g_size_hit sa nd zs) by (rewrite (rd_stage i_size _ _ _ _ Sa); exact Hzs).
+    destruct (upd_info_fields nd (w_legs (Some (ldel ind lg))) s4) as (_&_&_&_&_&_&R7&R8&R9&R10).
+    set (sc := set_sizes _ sa).
+    assert (Sc : stage s nd sc (w_legs (Some (ldel ind lg)) i1)) by (apply (stage_fields s nd sa); try reflexivity; exact Sa).
+    set (sd := set_write _ (upd_info nd (w_size (Some (zs / d)%Z)) sc)).
+    assert (Sd : stage s nd sd (w_size (Some (zs / d)%Z) (w_legs (Some (ldel ind lg)) i1))).
+    { apply (stage_fields s nd (upd_info nd (w_size (Some (zs / d)%Z)) sc)); try reflexivity. apply stage_upd, Sc. }
+    destruct (upd_info_fields nd (w_size (Some (zs / d)%Z)) sc) as (_&_&_&_&_&_&T7&T8&T9&T10).
+    destruct (upd_info_fields nd drop_inds_recipes sd) as (_&_&_&_&_&_&U7&U8&U9&U10).
+    assert (Za : sizes_mc sa = sizes_mc s) by (unfold sizes_mc, sa; rewrite R9, R10; exact Z4).
+    split; [apply stage_upd, Sd|]. rewrite U7, U8. unfold sizes_mc at 1. rewrite U9, U10.
+    split.
+    { change (flops_ sd) with (flops_ (upd_info nd (w_size (Some (zs / d)%Z)) sc)). rewrite T7.
+      change (flops_ sc) with (flops_ sa). unfold sa. rewrite R7. exact F4. }
+    split.
+    { change (write_ sd) with (write_ sc + (zs / d - zs))%Z.
+      change (write_ sc) with (write_ sa). unfold sa. rewrite R8, W4. reflexivity. }
+    change (sizes_ sd) with (sizes_ (upd_info nd (w_size (Some (zs / d)%Z)) sc)).
+    change (sizes_max sd) with (sizes_max (upd_info nd (w_size (Some (zs / d)%Z)) sc)). rewrite T9, T10.
+    change (sizes_ sc) with (fst (mc_add (zs / d)%Z (mc_discard zs (sizes_mc sa)))).
+    change (sizes_max sc) with (snd (mc_add (zs / d)%Z (mc_discard zs (sizes_mc sa)))).
+    rewrite Za. destruct (mc_add (zs / d)%Z (mc_discard zs (sizes_mc s))); reflexivity.
+  - destruct (upd_info_fields nd drop_inds_recipes s4) as (_&_&_&_&_&_&U7&U8&U9&U10).
+    split; [apply stage_upd, S4|]. rewrite U7, U8. unfold sizes_mc in *. rewrite U9, U10.
+    split; [exact F4|]. split; [exact W4|exact Z4].
+Qed.
+
+Section RemoveInd.
+Variable sl sl' : list slinfo.
+Variable ind : ix.
+Variable d : Z.
+Hypothesis Hrem : forall j, In j (removed sl') <-> j = ind \/ In j (removed sl).
+Hypothesis Hd : d = zget ind (szd n).
+Hypothesis Hdpos : (0 < d)%Z.
+
+Lemma div_back a m : a = (m * d)%Z -> (a / d)%Z = m.
+Proof. intros ->. apply Z.div_mul. lia. Qed.
+
+(* the new cost fields of an internal node, uniformly *)
+Lemma node_more ch nd i i' inv zf lg zs : node_inv ch sl nd i -> length nd <> 1 ->
+  i_involved i = Some inv -> i_flops i = Some zf -> i_legs i = Some lg -> i_size i = Some zs ->
+  i_involved i' = Some (ldel ind inv) -> i_legs i' = Some (ldel ind lg) ->
+  i_flops i' = Some (zf / (if lmem ind inv then d else 1))%Z ->
+  i_size i' = Some (zs / (if lmem ind lg then d else 1))%Z ->
+  node_inv ch sl' nd i'.
+Proof.
+  intros (A&B&C&D) E1 Hinv Hzf Hlg Hzs Hinv' Hlg' Hzf' Hzs'.
+  pose proof (A lg Hlg) as Al. pose proof (legs_more sl sl' ind Hrem nd lg Al) as Al'.
+  destruct (B inv Hinv) as [[E _]|(l & r & Ech & Hok)]; [contradiction|].
+  pose proof (inv_more sl sl' ind Hrem l r inv Hok) as Hok'.
+  unfold node_inv. rewrite Hinv', Hlg', Hzf', Hzs'. repeat split.
+  - intros x [= <-]. exact Al'.
+  - intros x [= <-]. right. exists l, r. split; assumption.
+  - intros z [= <-] lg' Hlg''. rewrite <- (legs_ok_size_unique n sl' (szd n) nd _ _ Al' Hlg'').
+    assert (NDl : NoDup (lkeys lg)). { unfold legs_ok in Al. destruct (Nat.eqb (length nd) N); [apply Al|apply Al]. }
+    pose proof (C zs Hzs lg Al) as Ez. rewrite (size_of_ldel (szd n) ind lg NDl) in Ez. rewrite <- Hd in Ez.
+    destruct (lmem ind lg); [apply div_back, Ez|rewrite Z.div_1_r; lia].
+  - intros z [= <-]. right. exists l, r. split; [exact Ech|]. intros inv' Hinv''.
+    rewrite <- (inv_ok_size_unique n sl' (szd n) l r _ _ Hok' Hinv'').
+    destruct (D zf Hzf) as [[E _]|(l2 & r2 & Ech2 & Hf)]; [contradiction|]. rewrite Ech in Ech2. injection Ech2 as <- <-.
+    pose proof (Hf inv Hok) as Ez. rewrite (size_of_ldel (szd n) ind inv (proj1 (proj1 Hok))) in Ez. rewrite <- Hd in Ez.
+    destruct (lmem ind inv); [apply div_back, Ez|rewrite Z.div_1_r; lia].
+Qed.
+
+(* a leaf whose term does not carry the index *)
+Lemma leaf_spec_same k j : ~ In ind (nth k (inputs n) []) -> spec_count n sl' [k] j = spec_count n sl [k] j.
+Proof.
+  intros Hn. rewrite (spec_more sl sl' ind Hrem). destruct (Nat.eqb_spec j ind) as [->|]; [|reflexivity].
+  unfold spec_count. cbn [cnt]. assert (E : occ (term_sl n sl k) ind = 0).
+  { destruct (occ (term_sl n sl k) ind) eqn:Eo; [reflexivity|]. exfalso. apply Hn.
+    assert (Hin : In ind (term_sl n sl k)) by (apply occ_pos; lia). unfold term_sl in Hin. apply filter_In in Hin. apply Hin. }
+  rewrite E. cbn. destruct (appear n ind); reflexivity.
+Qed.
+Lemma leaf_legs_ok_same k lg : ~ In ind (nth k (inputs n) []) -> (legs_ok n sl [k] lg <-> legs_ok n sl' [k] lg).
+Proof.
+  intros Hn. unfold legs_ok. cbn [length]. destruct (Nat.eqb_spec 1 N) as [E|_]; [lia|].
+  unfold slegs_ok. split; intros [W G]; (split; [exact W|]); intros j; rewrite G; [symmetry|]; apply leaf_spec_same, Hn.
+Qed.
+Lemma leaf_node_same ch k i : children_ok ch -> ~ In ind (nth k (inputs n) []) -> node_inv ch sl [k] i -> node_inv ch sl' [k] i.
+Proof.
+  intros Hc Hn (A&B&C&D). unfold node_inv. repeat split.
+  - intros lg Hl. apply (leaf_legs_ok_same k lg Hn), A, Hl.
+  - intros inv Hi. destruct (B inv Hi) as [Hl|(l & r & E & _)]; [left; exact Hl|].
+    exfalso. apply (leaf_not_parent ch [k] l r Hc E). reflexivity.
+  - intros z Hz lg Hl. apply (C z Hz). apply (leaf_legs_ok_same k lg Hn), Hl.
+  - intros z Hz. destruct (D z Hz) as [Hl|(l & r & E & _)]; [left; exact Hl|].
+    exfalso. apply (leaf_not_parent ch [k] l r Hc E). reflexivity.
+Qed.
+End RemoveInd.
+
 End Inv.
